@@ -110,3 +110,8 @@ _mt('C03',
     "classes and all paths, the local obligation of a structural induction over converter trees, which no finite value sample does. "
     "Full logical equivalence of the passes is not decided.",
     "static sibling agreement over CFG control dependence (verdict-atom comparison)", "DESIGN.md section 5", _STD_NOTE)
+
+
+from . import properties_more as _more  # noqa: E402
+
+_more.register(_reg, _mt, _STD_NOTE)
